@@ -87,7 +87,12 @@ func Main(t *testing.T, e Engine) {
 	case "batch":
 		for i, seed := range req.Seeds {
 			t0 := time.Now()
-			plan := e.Generate(NewRng(seed), req.Property, req.Tier)
+			genProp := req.Property
+			if g := os.Getenv("SIM_GENPROP"); g != "" {
+				// developer aid: judge property X on the workload profile of property Y
+				genProp = g
+			}
+			plan := e.Generate(NewRng(seed), genProp, req.Tier)
 			plan.Engine, plan.Property, plan.Tier, plan.Seed = e.Name(), req.Property, req.Tier, seed
 			out := Run(t, e, plan, false)
 			out.Steps = len(plan.Steps)
